@@ -710,6 +710,18 @@ def EnvironmentalScore (u0 : Nat) (u1 : Nat) (u2 : Nat) (u3 : Nat) : Nat :=
 def tbl_order : (List (List (List Nat))) :=
   [[([65, 86] : List Nat), ([65, 67] : List Nat), ([65, 117] : List Nat), ([67] : List Nat), ([73] : List Nat), ([65] : List Nat)], [([69] : List Nat), ([82, 76] : List Nat), ([82, 67] : List Nat)], [([67, 68, 80] : List Nat), ([84, 68] : List Nat), ([67, 82] : List Nat), ([73, 82] : List Nat), ([65, 82] : List Nat)]]
 
+/-- functions containing a pre-sized buffer `make([]T, 0, cap)` (one entry per occurrence) -/
+def pkg_presized : List String :=
+  ["CVSS20.Vector"]
+
+/-- every mention of package unsafe (function or `decl`:unsafe.X, one entry per occurrence) -/
+def pkg_unsafe_all : List String :=
+  ["CVSS20.Vector:unsafe.Pointer"]
+
+/-- sha256 (first 16 hex digits) of each verification hooks file -/
+def hook_sha : List String :=
+  ["zz_verif_hooks.go:a7e96d94804e9cda"]
+
 /-- import paths of the package's source files (alias=path when renamed) -/
 def pkg_imports : List String :=
   ["errors", "fmt", "math", "strings", "sync", "unsafe"]
